@@ -357,7 +357,7 @@ func c18start(s *vt.Sink) {
 // ---- packets of an exact plain size, in several shapes ---------------------------------------
 
 var (
-	c18rtpShapes  = []string{"payload", "csrc1", "csrc2", "csrc3", "ext", "pad", "extpad"}
+	c18rtpShapes  = []string{"payload", "csrc1", "csrc2", "csrc3", "ext", "pad", "extpad", "padold"}
 	c18rtcpShapes = []string{"single", "compound", "rrcompound", "raw"}
 )
 
@@ -420,6 +420,8 @@ func c18shapeCases(cs []c18case, seed int64, all bool) []c18case {
 //	ext      header extension, one-byte profile (0xBEDE), one or two elements
 //	pad      Padding bit + PaddingSize trailing bytes (1..255)
 //	extpad   both
+//	padold   Padding bit + the padding length given through the deprecated Packet.PaddingSize
+//	         field (Header.PaddingSize = 0), which pion/rtp still honours when marshalling
 //
 // When n leaves no room for the shape a simpler one is built; the shape built is returned.
 func c18rtp(n int, pt uint8, shape string, seq uint16, ts uint32, rng *rand.Rand) (*rtp.Packet, string) {
@@ -487,6 +489,10 @@ func c18rtp(n int, pt uint8, shape string, seq uint16, ts uint32, rng *rand.Rand
 		if addPad() {
 			built = "pad"
 		}
+	case "padold":
+		if addPad() {
+			built = "padold"
+		}
 	case "extpad":
 		e := addExt()
 		p := addPad()
@@ -507,6 +513,9 @@ func c18rtp(n int, pt uint8, shape string, seq uint16, ts uint32, rng *rand.Rand
 	rng.Read(pkt.Payload)
 	if pl > 0 {
 		pkt.Payload[0] = 0x41 // H264 non-IDR slice; opaque for Opus
+	}
+	if built == "padold" {
+		pkt.PaddingSize, pkt.Header.PaddingSize = pkt.Header.PaddingSize, 0 //nolint:staticcheck
 	}
 	return pkt, built
 }
